@@ -388,7 +388,7 @@ func checkRound(r Round) (out evid.Outcome) {
 	want := make([]resp, len(r.Pool))
 	for i, q := range r.Pool {
 		want[i] = serve(build(r), q)
-		if q.OwnLog && q.Before != "stop" && (want[i].ownLog == "nothing logged" || want[i].ownLog == "no logger registered") && want[i].escaped == "" {
+		if q.OwnLog && q.Before != "stop" && want[i].ownLog == "nothing logged" && want[i].escaped == "" {
 			// the comparison below holds an implementation against itself; that the
 			// Logger middleware writes to the *log.Logger mapped for this request
 			// (the nearest registration) is asserted here, on the request served alone
